@@ -29,6 +29,14 @@ type srcGen struct {
 	// wideRate > 0: 1 list in wideRate (at every kind of list site) has 17..46 items instead of
 	// 0..8.  0 (the default): never, and no random number is drawn for the decision.
 	wideRate int
+	// pkgMode > 0 (stream generated-pkgname, c01_pkgname.go): the package NAME of the file is
+	// taken from what the file IMPORTS - 1: the import path of a single-element standard-library
+	// import (package errors importing "errors"); 2: the declared name of an import with a longer
+	// path (package rand importing "math/rand"); 3: the alias of an import; 4: the last element of
+	// the directory path the file is said to live in (and an import of the same last element).
+	// 0 (the default): a name from the fixed pool, drawn as before.
+	pkgMode int
+	pkgName string // the package name written (set by fileHeader)
 }
 
 type genImport struct {
@@ -1434,7 +1442,10 @@ func (g *srcGen) funcDecl(d int) {
 // fileHeader writes the package clause and 0..5 imports (declared in g.imports).
 func (g *srcGen) fileHeader() {
 	r := g.r
-	g.w("package ", pick(r, []string{"p", "main", "foo_test", "x1", "é"}), "\n\n")
+	if g.pkgMode == 0 {
+		g.pkgName = pick(r, []string{"p", "main", "foo_test", "x1", "é"})
+		g.w("package ", g.pkgName, "\n\n")
+	}
 	// imports
 	ni := r.Intn(6)
 	perm := r.Perm(len(genPkgs))
@@ -1451,6 +1462,10 @@ func (g *srcGen) fileHeader() {
 			}
 		}
 		g.imports = append(g.imports, im)
+	}
+	if g.pkgMode != 0 {
+		ni = g.pkgNameFromImports()
+		g.w("package ", g.pkgName, "\n\n")
 	}
 	writeSpec := func(im *genImport) {
 		if im.alias != "" {
